@@ -14,3 +14,13 @@ func VerifGraphemeBreaks() []*unicode.RangeTable { return graphemeBreaks[:] }
 func VerifWordBreaks() []*unicode.RangeTable { return wordBreaks[:] }
 
 func VerifCombiningClasses() []*unicode.RangeTable { return combiningClasses[:] }
+
+// VerifUprightOrMixedScripts returns a copy of the table LookupVerticalOrientation scans.
+func VerifUprightOrMixedScripts() []ScriptVerticalOrientation {
+	return append([]ScriptVerticalOrientation(nil), uprightOrMixedScripts[:]...)
+}
+
+// VerifFields exposes the unexported fields of a ScriptVerticalOrientation.
+func (sv ScriptVerticalOrientation) VerifFields() (script uint32, isMainSideways bool, exceptions *unicode.RangeTable) {
+	return uint32(sv.script), sv.isMainSideways, sv.exceptions
+}
